@@ -459,8 +459,9 @@ class CHECK(core.Check):
                   "every integer in all ten converters (C17_roundtrip_int), True/False/None, every quote-free string written "
                   "in double or single quotes, every path text, points with integer coordinates of all six kinds "
                   "(C17_roundtrip_*), every finite decimal numeral [-]digits.digits in all ten converters as the exact decimal "
-                  "(C17_roundtrip_decimal). Not proved: binary rounding (CPython's float), exponent notation, points with "
-                  "fractional coordinates (exercised only). The model is tied to building.py/globaling.py by running all converters on the same "
+                  "(C17_roundtrip_decimal), every such numeral with an exponent e+k / e-k in all ten converters (C17_roundtrip_exponent), "
+                  "points of all six kinds with decimal coordinates (C17_roundtrip_point_*_decimal). Not proved: binary rounding "
+                  "(CPython's float), the exponent form without a dot (`1e+16`), digit-group underscores. The model is tied to building.py/globaling.py by running all converters on the same "
                   "texts and by building scripts for each literal context.")
     LEVEL_NOTE = ("Trusted: Lean kernel; propext, Classical.choice, Quot.sound; the hand transcription of the converters, "
                   "regexes and CPython number grammars, validated only by the correspondence runs; CPython's float() "
